@@ -187,16 +187,12 @@ def check(run):
                 run.fail("filter-views-share-state", "views of one parsed file are not independent: after the operations %s, reading view %d returns %s, its own settings give %s" % (ops[: i + 1], ops[i]["read"], got[i], a[i]),
                          dict(model=m, ops=ops, potable_file=render(m, "LAMMPS")))
     # ---- (3) end to end ---------------------------------------------------------------------------------------------------------
-    nb = 0
-    for m in models[: run.n(60, 1000)]:
-        targets = PAIR_TARGETS if m["kind"] == "pair" else (["setfl", "DL_POLY_EAM"] if m["kind"] == "eam" else ["setfl_fs", "DL_POLY_EAM_fs"])
-        target = rng.choice(targets)
-        exclude = rng.random() < 0.5
-        S = species_set(rng, m, allow_empty=False)
+    nb = [0]
+
+    def e2e(m, target, exclude, S, route):
         full = render(m, target)
         edited = render(m, target, keep_pred(exclude, S))
         oc_e, out_e = impl.outcome_of(lambda: impl.config_tabulate(edited))
-        route = rng.choice(["api", "cli"])
         if route == "api":
             def go():
                 cp = ConfigParser(io.StringIO(full))
@@ -212,11 +208,29 @@ def check(run):
         run.traces += 1
         same = (oc_e == oc_f) and (oc_e != "ok" or out_e == out_f)
         if not same:
-            nb += 1
-            if nb <= 3:
+            nb[0] += 1
+            if nb[0] <= 3:
                 run.fail("filter-output-differs-from-edited-file", "target %s, %s %s via %s: tabulating with the filter gives %s, tabulating the hand-edited file gives %s" % (
                     target, "--exclude-species" if exclude else "--include-species", S, route, oc_f if oc_f != "ok" else "%d bytes" % len(out_f), oc_e if oc_e != "ok" else "%d bytes" % len(out_e)),
                     dict(potable_file=full, hand_edited_file=edited, mode="exclude" if exclude else "include", species=S, route=route))
+
+    def targets_of(m):
+        return PAIR_TARGETS if m["kind"] == "pair" else (["setfl", "DL_POLY_EAM"] if m["kind"] == "eam" else ["setfl_fs", "DL_POLY_EAM_fs"])
+    for m in models[: run.n(60, 1000)]:
+        e2e(m, rng.choice(targets_of(m)), rng.random() < 0.5, species_set(rng, m, allow_empty=False), rng.choice(["api", "cli"]))
+    # species sets made ONLY of labels that occur nowhere in the file, and sets mixing one known with unknown labels: both modes, both routes, every model kind
+    seen_kinds = set()
+    for m in models:
+        if m["kind"] in seen_kinds:
+            continue
+        seen_kinds.add(m["kind"])
+        known = sorted(set(x for e in m.get("pairs", []) for x in (e[0], e[1]) if isinstance(x, str)))[:1]
+        for S in (["Pu"], ["Pu", "Np"], known + ["Pu"]):
+            if not S:
+                continue
+            for exclude in (False, True):
+                for route in ("api", "cli"):
+                    e2e(m, targets_of(m)[0], exclude, S, route)
 
 
 def replay(run, payload):
